@@ -647,6 +647,9 @@ func luaPrograms() []luaProgram {
 		{"inline-two-levels", "root packet R { u8 h, outer { u16 x, inner { u32 y, char[4] z, }, }, u8 t, }\n"},
 		{"repeats", "options { LittleEndian = true; ArrayPrefixLenType = u32; StringPrefixLenType = u8; }\npacket Item { u8 b, string s, }\nroot packet R { repeat Item items, repeat string names, repeat group { u16 g, }, repeat char[3] codes, u64 tail, }\n"},
 		{"root-match-with-trailer", "root packet R { u16 kind, u32 len, match kind as body { 1 : A, 2 : B, }, u32 checksum, }\npacket A { u8 a, }\npacket B { repeat u16 b, }\n"},
+		{"empty-packet-as-object", "packet Marker { }\npacket Holder { u8 a, Marker m, u16 b, }\nroot packet R { Marker first, Holder h, repeat Marker marks, u32 tail, }\n"},
+		{"same-inline-name-twice", "packet Quote { repeat Entry { u32 Price, u16 Qty, }, }\npacket Trade { Entry { char[8] Account, u8 Side, }, }\nroot packet R { Quote q, Trade t, }\n"},
+		{"object-used-twice", "packet Leaf { u8 v, }\npacket Left { Leaf l, }\npacket Right { Leaf l, repeat Leaf more, }\nroot packet R { Left a, Right b, Leaf c, }\n"},
 		{"chain-of-three", "packet C { u8 c, }\npacket B { C c, }\npacket A { B b, }\nroot packet R { A a, }\n"},
 		{"chain-of-three-reversed", "packet A { B b, }\npacket B { C c, }\npacket C { u8 c, }\nroot packet R { A a, }\n"},
 	}
@@ -672,10 +675,13 @@ func luaFileObligations() []emitObl {
 			continue
 		}
 		a := analyseLua(r.Text)
-		for _, k := range []string{"advance", "scope", "defined"} {
+		a.Issues["defines"] = luaFileDefinesIssues(r.Text, a)
+		a.Issues["returns"] = luaFileReturnsIssues(r.Text)
+		for _, k := range []string{"advance", "scope", "defined", "defines", "returns"} {
 			l := a.Issues[k]
 			d := map[string]string{"advance": "every read is followed by an advance of the same width", "scope": "every variable used is a parameter or local of its function",
-				"defined": "a `local function dissect_x` precedes, in the text, every call of dissect_x"}[k]
+				"defined": "a `local function dissect_x` precedes, in the text, every call of dissect_x", "defines": "every fields.X a step displays is a key of the fields table",
+				"returns": "every `local function dissect_x` ends in `return offset`"}[k]
 			if len(l) > 0 {
 				d += ": " + truncate(strings.Join(l, " | "), 600) + "\ninput:\n" + p.DSL
 			}
@@ -686,6 +692,59 @@ func luaFileObligations() []emitObl {
 			}
 			out = append(out, o)
 		}
+	}
+	return out
+}
+
+// luaFileDefinesIssues: every fields.X displayed anywhere in the file is defined in the fields table.
+func luaFileDefinesIssues(text string, a *luaAnalysis) []string {
+	defined := luaProtoFieldKeys(text)
+	seen := map[string]bool{}
+	var out []string
+	for _, r := range a.Reads {
+		if r.Kind != "display" {
+			continue
+		}
+		if k := strings.TrimPrefix(r.Target, "fields."); !defined[k] && !seen[k] {
+			seen[k] = true
+			out = append(out, fmt.Sprintf("%s displays fields.%s, which the fields table does not define", r.Function, k))
+		}
+	}
+	return out
+}
+
+// luaFileReturnsIssues: every `local function dissect_x(...)` of the file ends in `return offset`.
+func luaFileReturnsIssues(text string) []string {
+	var out []string
+	var cur string
+	depth := 0
+	last := ""
+	for _, raw := range strings.Split(text, "\n") {
+		l := strings.TrimSpace(raw)
+		if l == "" || strings.HasPrefix(l, "--") {
+			continue
+		}
+		if h := luaFuncHeader(l); h != nil {
+			if depth == 0 && h[1] != "" && strings.HasPrefix(h[2], "dissect_") {
+				cur = h[2]
+			}
+			depth++
+			last = ""
+			continue
+		}
+		switch {
+		case luaForRe.MatchString(l), strings.HasPrefix(l, "if ") && strings.Contains(l, " then"):
+			depth++
+		case l == "end":
+			depth--
+			if depth == 0 && cur != "" {
+				if last != "return offset" {
+					out = append(out, fmt.Sprintf("%s does not end in `return offset` (last statement: %q): its callers assign its result to offset", cur, last))
+				}
+				cur = ""
+			}
+		}
+		last = l
 	}
 	return out
 }
